@@ -219,31 +219,37 @@ Proof.
   apply wf_list in H. tauto.
 Qed.
 
-Lemma list_extend_spec vec al i vec1 al1 j :
-  list_extend vec al i = Some (vec1, al1, j) -> Forall wf vec -> Forall wf vec1 /\ (j < length vec1)%nat.
+Lemma list_extend_specP (P : node -> Prop) vec al i vec1 al1 j :
+  P NNull -> list_extend vec al i = Some (vec1, al1, j) -> Forall P vec -> Forall P vec1 /\ (j < length vec1)%nat.
 Proof.
-  unfold list_extend. intros H Hv.
+  unfold list_extend. intros HN H Hv.
   destruct (i <? 0)%Z eqn:E0; [discriminate|]. apply Z.ltb_ge in E0.
   destruct (i <? Z.of_nat (length vec))%Z eqn:E1.
   - injection H as <- _ <-. apply Z.ltb_lt in E1. split; [assumption|lia].
   - destruct (i =? INT_MAX)%Z; [discriminate|]. injection H as <- _ <-. apply Z.ltb_ge in E1. split.
     + apply Forall_app. split; [assumption|]. apply Forall_forall. intros x Hx.
-      apply repeat_spec in Hx. subst. exact I.
+      apply repeat_spec in Hx. subst. exact HN.
     + rewrite app_length, repeat_length.
       assert (length vec <= Z.to_nat i)%nat by (apply Nat2Z.inj_le; rewrite Z2Nat.id; lia).
       destruct (length vec); lia.
 Qed.
-Lemma list_insert_spec vec al i vec1 al1 j :
-  list_insert vec al i = Some (vec1, al1, j) -> Forall wf vec -> Forall wf vec1 /\ (j < length vec1)%nat.
+Lemma list_insert_specP (P : node -> Prop) vec al i vec1 al1 j :
+  P NNull -> list_insert vec al i = Some (vec1, al1, j) -> Forall P vec -> Forall P vec1 /\ (j < length vec1)%nat.
 Proof.
-  unfold list_insert. intros H Hv.
+  unfold list_insert. intros HN H Hv.
   destruct (i <? 0)%Z eqn:E0; [discriminate|]. apply Z.ltb_ge in E0.
   destruct (i <? Z.of_nat (length vec))%Z eqn:E1.
   - injection H as <- _ <-. apply Z.ltb_lt in E1. split.
-    + apply Forall_insert_nth; [assumption|exact I].
+    + apply Forall_insert_nth; [assumption|exact HN].
     + rewrite length_insert_nth by lia. lia.
-  - eapply list_extend_spec; [exact H|exact Hv].
+  - eapply list_extend_specP; [exact HN|exact H|exact Hv].
 Qed.
+Lemma list_extend_spec vec al i vec1 al1 j :
+  list_extend vec al i = Some (vec1, al1, j) -> Forall wf vec -> Forall wf vec1 /\ (j < length vec1)%nat.
+Proof. apply (list_extend_specP wf). exact I. Qed.
+Lemma list_insert_spec vec al i vec1 al1 j :
+  list_insert vec al i = Some (vec1, al1, j) -> Forall wf vec -> Forall wf vec1 /\ (j < length vec1)%nat.
+Proof. apply (list_insert_specP wf). exact I. Qed.
 
 (* ------------------------------------------------------------------ descend (set) keeps well-formedness *)
 Lemma descend_set_wf {A} : forall es (fin : node -> node * A),
@@ -347,6 +353,91 @@ Proof.
       * apply Forall_set_nth; [exact V|]. apply IH. apply Forall_nth_default; [exact V|exact I].
 Qed.
 
+(* ------------------------------------------------------------------ "lists stay short" does not depend on what is
+   stored at the anchor: if the tree is short after descend_set with one function it is short with any other
+   function that keeps short nodes short (the lists on the path are the same) *)
+Lemma wf_lens : forall n, wf n -> lens n.
+Proof.
+  induction n as [| v | kv IH | vec al IH] using node_ind'; intros Hw; try exact I.
+  - apply wf_map in Hw as [_ Hv]. apply lens_map. unfold wf_vals in Hv. rewrite Forall_forall in *.
+    intros p Hin. apply IH; auto.
+  - apply wf_list in Hw as [Hb Hv]. apply lens_list. split; [exact Hb|]. unfold wf_items in Hv.
+    rewrite Forall_forall in *. auto.
+Qed.
+
+Lemma lens_as_map n : lens n -> Forall (fun p => lens (snd p)) (map_entries n).
+Proof. intros H. destruct n; simpl; try constructor. now apply lens_map. Qed.
+Lemma lens_as_list n :
+  lens n -> Forall lens (fst (list_parts n)) /\ (Z.of_nat (length (fst (list_parts n))) < INT_MAX)%Z.
+Proof.
+  intros H. destruct n; simpl; try (split; [constructor|reflexivity]).
+  apply lens_list in H. tauto.
+Qed.
+
+Lemma descend_set_lens {A B} : forall es (fin : node -> node * A) (fin' : node -> node * B),
+    (forall a, lens a -> lens (fst (fin' a))) ->
+    forall n, lens n -> lens (fst (descend_set es fin n)) -> lens (fst (descend_set es fin' n)).
+Proof.
+  induction es as [|e es IH]; intros fin fin' Hfin n Hn Hl.
+  - cbn [descend_set]. specialize (Hfin n Hn). destruct (fin' n); exact Hfin.
+  - assert (LIST : forall vec1 al1 j,
+               Forall lens vec1 -> (j < length vec1)%nat ->
+               lens (fst (let '(c', r) := descend_set es fin (nth j vec1 NNull) in
+                          (NList (set_nth j c' vec1) al1, r))) ->
+               lens (fst (let '(c', r) := descend_set es fin' (nth j vec1 NNull) in
+                          (NList (set_nth j c' vec1) al1, r)))).
+    { intros vec1 al1 j Hv Hj Hl1.
+      destruct (descend_set es fin (nth j vec1 NNull)) as [c1 r1] eqn:D1.
+      destruct (descend_set es fin' (nth j vec1 NNull)) as [c2 r2] eqn:D2. cbn [fst] in *.
+      apply lens_list in Hl1 as [Hb Hf]. apply lens_list. rewrite length_set_nth in *. split; [exact Hb|].
+      apply Forall_set_nth; [exact Hv|].
+      replace c2 with (fst (descend_set es fin' (nth j vec1 NNull))) by now rewrite D2.
+      apply (IH fin fin' Hfin).
+      - apply Forall_nth_default; [exact Hv|exact I].
+      - rewrite D1. cbn [fst]. rewrite Forall_forall in Hf. apply Hf. now apply set_nth_in. }
+    destruct e; cbn [descend_set] in *.
+    + (* E_MAP *)
+      pose proof (lens_as_map n Hn) as V.
+      specialize (Hfin (NMap (map_entries n))). destruct (fin' (NMap (map_entries n))). apply Hfin. now apply lens_map.
+    + (* E_MAP_ELEMENT *)
+      pose proof (lens_as_map n Hn) as V.
+      destruct (lookup k (map_entries n)) as [child|] eqn:L.
+      * destruct (descend_set es fin child) as [c1 r1] eqn:D1.
+        destruct (descend_set es fin' child) as [c2 r2] eqn:D2. cbn [fst] in *.
+        apply lens_map in Hl. apply lens_map. apply Forall_update; [exact V|].
+        replace c2 with (fst (descend_set es fin' child)) by now rewrite D2.
+        apply (IH fin fin' Hfin).
+        -- destruct (lookup_in _ _ _ L) as [k' Hin]. rewrite Forall_forall in V. apply (V _ Hin).
+        -- rewrite D1. cbn [fst]. destruct (update_in k c1 child _ L) as [k' Hin].
+           rewrite Forall_forall in Hl. apply (Hl _ Hin).
+      * destruct (descend_set es fin NNull) as [c1 r1] eqn:D1.
+        destruct (descend_set es fin' NNull) as [c2 r2] eqn:D2. cbn [fst] in *.
+        apply lens_map in Hl. apply lens_map. apply Forall_app. split; [exact V|]. constructor; [|constructor]. cbn [snd].
+        replace c2 with (fst (descend_set es fin' NNull)) by now rewrite D2.
+        apply (IH fin fin' Hfin); [exact I|].
+        rewrite D1. cbn [fst]. apply Forall_app in Hl as [_ Hl]. now inversion Hl.
+    + (* E_LIST *)
+      destruct (lens_as_list n Hn) as [V Bd]. destruct (list_parts n) as [vec al]. cbn [fst] in *.
+      specialize (Hfin (NList vec al)). destruct (fin' (NList vec al)). apply Hfin. apply lens_list. split; assumption.
+    + (* E_LIST_ELEMENT *)
+      destruct (lens_as_list n Hn) as [V Bd]. destruct (list_parts n) as [vec al]. cbn [fst] in *.
+      destruct (list_extend vec al i) as [[[vec1 al1] j]|] eqn:X.
+      * destruct (list_extend_specP lens _ _ _ _ _ _ I X V) as [V1 J]. now apply LIST.
+      * exact Hl.
+    + (* E_LIST_INSERT *)
+      destruct (lens_as_list n Hn) as [V Bd]. destruct (list_parts n) as [vec al]. cbn [fst] in *.
+      destruct (list_insert vec al i) as [[[vec1 al1] j]|] eqn:X.
+      * destruct (list_insert_specP lens _ _ _ _ _ _ I X V) as [V1 J]. now apply LIST.
+      * exact Hl.
+    + (* E_LIST_APPEND *)
+      destruct (lens_as_list n Hn) as [V Bd]. destruct (list_parts n) as [vec al]. cbn [fst] in *.
+      unfold list_append in *. apply LIST; [| |exact Hl].
+      * apply Forall_app. split; [exact V|]. constructor; [exact I|constructor].
+      * rewrite app_length. simpl. lia.
+    + (* E_DOT *)
+      specialize (Hfin n Hn). destruct (fin' n); exact Hfin.
+Qed.
+
 (* ------------------------------------------------------------------ well-formedness only depends on the document *)
 Lemma Forall2_wf_transfer (P : node -> Prop) l1 : 
   Forall (fun x => forall y, abs x = abs y -> wf x -> wf y) l1 ->
@@ -407,6 +498,74 @@ Proof.
   destruct (is_eof t); [|intros _; exact Hw]. apply descend_set_wf; auto. eapply parse_keys; eauto.
 Qed.
 
+Lemma vset_subtree_then_lens {A B} root d (inner : node -> node * A) (inner' : node -> node * B) :
+  lens root -> (forall a, lens a -> lens (fst (inner' a))) ->
+  lens (fst (vset_subtree_then root d inner)) -> lens (fst (vset_subtree_then root d inner')).
+Proof.
+  unfold vset_subtree_then. intros Hn Hin. destruct (parse d) as [[[es t] rest]|]; [|intros _; exact Hn].
+  destruct (is_eof t); [|intros _; exact Hn]. now apply descend_set_lens.
+Qed.
+
+(* ------------------------------------------------------------------ the aliased copy *)
+Lemma copy_within_ok root d d2 r1 u :
+  vset_subtree_then root d (fun a => (a, tt)) = (r1, inr u) ->
+  copy_within root d d2
+  = (let '(r2, res2) := vset_subtree_then root d (fun a => (copy a (source_of r1 d2), ok0)) in (r2, sub_outcome res2)).
+Proof. intros E. unfold copy_within. now rewrite E. Qed.
+Lemma copy_within_err root d d2 r1 e :
+  vset_subtree_then root d (fun a => (a, tt)) = (r1, inl e) -> copy_within root d d2 = (r1, mkOut (-2) e PNone).
+Proof. intros E. unfold copy_within. now rewrite E. Qed.
+
+(* the source is read in the conformed tree, which is well-formed when the final tree's lists are short *)
+Lemma copy_within_conformed_wf root d d2 r1 u :
+  wf root -> vset_subtree_then root d (fun a => (a, tt)) = (r1, inr u) ->
+  lens (fst (copy_within root d d2)) -> wf r1.
+Proof.
+  intros Hw E Hl. rewrite (copy_within_ok _ _ _ _ _ E) in Hl.
+  replace r1 with (fst (vset_subtree_then root d (fun a : node => (a, tt)))) by now rewrite E.
+  apply vset_subtree_then_wf; [exact Hw|intros a Ha _; exact Ha|].
+  apply (vset_subtree_then_lens root d (fun a => (copy a (source_of r1 d2), ok0))); [now apply wf_lens|intros a Ha; exact Ha|].
+  destruct (vset_subtree_then root d (fun a => (copy a (source_of r1 d2), ok0))); exact Hl.
+Qed.
+
+Lemma source_of_wf r1 d2 : wf r1 -> wf (source_of r1 d2).
+Proof.
+  intros Hw. unfold source_of. destruct (get_node r1 d2) as [e|n] eqn:G; [exact I|]. exact (get_node_wf r1 d2 n Hw G).
+Qed.
+
+Lemma copy_within_wf root d d2 :
+  wf root -> lens (fst (copy_within root d d2)) -> wf (fst (copy_within root d d2)).
+Proof.
+  intros Hw Hl. destruct (vset_subtree_then root d (fun a => (a, tt))) as [r1 [e|u]] eqn:E.
+  - rewrite (copy_within_err _ _ _ _ _ E) in *. cbn [fst] in *.
+    replace r1 with (fst (vset_subtree_then root d (fun a : node => (a, tt)))) in * by now rewrite E.
+    apply vset_subtree_then_wf; [exact Hw|intros a Ha _; exact Ha|exact Hl].
+  - pose proof (copy_within_conformed_wf root d d2 r1 u Hw E Hl) as W1.
+    rewrite (copy_within_ok _ _ _ _ _ E) in *.
+    destruct (vset_subtree_then root d (fun a => (copy a (source_of r1 d2), ok0))) as [r2 res2] eqn:E2. cbn [fst] in *.
+    replace r2 with (fst (vset_subtree_then root d (fun a => (copy a (source_of r1 d2), ok0)))) in * by now rewrite E2.
+    apply vset_subtree_then_wf; [exact Hw| |exact Hl].
+    intros a _ _. cbn [fst]. apply copy_wf. now apply source_of_wf.
+Qed.
+
+(* refinement: the byte-level aliased copy is the document rule "the value at d becomes the old value at d2" *)
+Lemma sim_copy_within root d d2 :
+  wf root -> lens (fst (copy_within root d d2)) ->
+  d_copy_within (abs root) d d2 = (abs (fst (copy_within root d d2)), abs_out (snd (copy_within root d d2))).
+Proof.
+  intros Hw Hl. unfold d_copy_within.
+  rewrite (sim_vset_subtree_then (fun u : unit => u) root d (fun a => (a, tt)) (fun a => (a, tt))) by (intro; reflexivity).
+  destruct (vset_subtree_then root d (fun a => (a, tt))) as [r1 [e|u]] eqn:E; cbn [fst snd map_inr].
+  - rewrite (copy_within_err _ _ _ _ _ E). reflexivity.
+  - pose proof (copy_within_conformed_wf root d d2 r1 u Hw E Hl) as W1.
+    rewrite (copy_within_ok _ _ _ _ _ E).
+    rewrite (sim_vset_subtree_then abs_out root d (fun a => (copy a (source_of r1 d2), ok0))
+                                   (fun _ => (d_source_of (abs r1) d2, dok0))).
+    + destruct (vset_subtree_then root d (fun a => (copy a (source_of r1 d2), ok0))) as [r2 [e|o]]; reflexivity.
+    + intros n. cbn [fst snd]. rewrite (copy_abs n _ (source_of_wf r1 d2 W1)).
+      unfold d_source_of, source_of. rewrite sim_get_node. destruct (get_node r1 d2); reflexivity.
+Qed.
+
 (* ------------------------------------------------------------------ operation sequences *)
 Definition lens_state (s : state) : Prop := lens (st_root s) /\ lens (st_aux s).
 
@@ -441,7 +600,54 @@ Proof.
     split; [|exact Ha]. cbn [fst st_root] in *.
     replace r' with (fst (vset_subtree_then root d (fun a => (copy a aux, ok0)))) in * by now rewrite E.
     apply vset_subtree_then_wf; auto. intros a _ _. cbn [fst]. now apply copy_wf.
+  - destruct (copy_within root d d2) as [r' out] eqn:E. intros [L1 L2]. split; [|exact Ha]. cbn [fst st_root] in *.
+    replace r' with (fst (copy_within root d d2)) in * by now rewrite E. now apply copy_within_wf.
   - intros _. now split.
+Qed.
+
+(* ------------------------------------------------------------------ refinement, every op (copies included) *)
+Lemma sim_step s o :
+  wf_state s -> lens_state (fst (step s o)) ->
+  d_step (abs_state s) o = (abs_state (fst (step s o)), abs_out (snd (step s o))).
+Proof.
+  intros [Hr Ha] Hl. destruct (is_copy o) eqn:C; [|now apply sim_step_nocopy].
+  destruct s as [root aux]. cbn [st_root st_aux] in *.
+  destruct o; try discriminate C; unfold d_step, step, abs_state in *; cbn [ds_root ds_aux st_root st_aux fst snd] in *.
+  - rewrite sim_get_node. destruct (get_node root d) as [e|n] eqn:G; cbn [map_inr].
+    + unfold d_copy. now rewrite (copy_abs aux NNull I).
+    + unfold d_copy. now rewrite (copy_abs aux n (get_node_wf root d n Hr G)).
+  - rewrite (sim_vset_subtree_then abs_out root d (fun a => (copy a aux, ok0))).
+    + destruct (vset_subtree_then root d _) as [r' [e|u]]; reflexivity.
+    + intros n. unfold d_copy. cbn [fst snd]. now rewrite (copy_abs n aux Ha).
+  - destruct (copy_within root d d2) as [r' out] eqn:E. destruct Hl as [L1 _]. cbn [fst st_root] in L1.
+    replace r' with (fst (copy_within root d d2)) in L1 by now rewrite E.
+    rewrite (sim_copy_within root d d2 Hr L1), E. reflexivity.
+Qed.
+
+Lemma sim_run : forall ops s,
+    wf_run s ops ->
+    d_run (abs_state s) ops = (abs_state (fst (run s ops)), map abs_out (snd (run s ops))).
+Proof.
+  induction ops as [|o ops IH]; intros s H; [reflexivity|].
+  destruct H as [Hs Hr]. simpl.
+  assert (Hn : lens_state (fst (step s o))).
+  { destruct ops; destruct Hr as [[W1 W2] _]; split; now apply wf_lens. }
+  rewrite (sim_step s o Hs Hn). destruct (step s o) as [s1 out]. cbn [fst snd] in *.
+  rewrite (IH s1 Hr). destruct (run s1 ops); reflexivity.
+Qed.
+
+(* non-vacuity: a script with sets, a delete, a copy out, a copy into a subtree, and aliased copies: source inside
+   the destination ("c" := "c.d.l"), destination inside the source ("a.x.y" := "a"), source = destination, a missing
+   source, a destination that is created by an append *)
+Definition example_ops : list op :=
+  [OSet [97; 46; 98; 61; 120]%N; OSet [108; 91; 43; 93; 61; 121]%N; OSetSub [101; 123; 125]%N;
+   OCopyOut [46]%N; OCopyIn [99; 46; 100]%N; ODel [97; 46; 98]%N; OGet [99; 46; 100; 46; 108; 91; 48; 93]%N;
+   OCopyWithin [99]%N [99; 46; 100; 46; 108]%N; OCopyWithin [97; 46; 120; 46; 121]%N [97]%N;
+   OCopyWithin [108]%N [108]%N; OCopyWithin [101]%N [113]%N; OCopyWithin [108; 91; 43; 93]%N [46]%N;
+   OGet [108; 91; 49; 93; 46; 99; 91; 48; 93]%N].
+Lemma wf_run_example : wf_run init_state example_ops.
+Proof.
+  vm_compute. repeat split; try lia; repeat constructor; simpl; intuition (try discriminate; try congruence).
 Qed.
 
 (* no list reaches 2^31 - 1 elements in any state met while running the script *)
